@@ -101,13 +101,21 @@ def handle (cmd : String) (args : List Int) : Option String :=
         let u ← getEF u
         pure (travelEFD true idx (edgeSel s idx) (efdOf (g.ef.getD [])) == efdOf (u.ef.getD []))
       pure (match r with | some b => encBool b | none => "raises")
+  | "C09.lookupfe" => do
+      let (t, en) ← run (do let t ← rows; let en ← pairs; pure (t, en)) args
+      pure (match lookupFE t en with | some F => "ok " ++ encRows F | none => "none")
+  | "C09.edgeface" => do
+      let (FE, N, nEdge) ← run (do let a ← rows; let b ← nats; let c ← nat; pure (a, b, c)) args
+      pure (encPairs (Incidence.edgeFace FE N nEdge))
   | "C09.view" => do
       -- state machine: source (w, t, optional supplied en/fe) → history → slice (asis?) → requests → view
       let (w, t, sup, en, fe, hist, asis, idx, order) ← run (do
-        let w ← nat; let t ← rows; let sup ← bool; let en ← pairs; let fe ← rows
+        let w ← nat; let t ← rows; let sup ← nat; let en ← pairs; let fe ← rows
         let hist ← nats; let asis ← nat; let idx ← nats; let order ← nats
         pure (w, t, sup, en, fe, hist, asis, idx, order)) args
-      let g0 : State := if sup then { w := w, t := t, en := some en, fe := some fe } else { w := w, t := t }
+      -- sup: 0 = nothing supplied, 1 = edge_node and face_edge supplied, 2 = only edge_node supplied
+      let g0 : State := if sup == 1 then { w := w, t := t, en := some en, fe := some fe }
+                        else if sup == 2 then { w := w, t := t, en := some en } else { w := w, t := t }
       let r := do
         let g ← runHist g0 (hist.map varOf)
         -- asis: 0 = repaired, 1 = the original /repo, 2 = fixes/C09-1 only, 3 = C09-1 + C09-2 (no C09-3)
